@@ -16,7 +16,12 @@
 EXTENDS Naturals, Sequences, FiniteSets, TLC
 
 CONSTANT Fix    \* "none": the pinned tree;  "vars": variables re-stamped with the committing clock
-                \* (patches/C18-fix-restamp-variable-clock-on-commit.diff)
+                \* (patches/C18-fix-restamp-variable-clock-on-commit.diff) -- the repaired runtime;
+                \* "vars-rollback": DELIBERATELY BROKEN variant of "vars" (seed C18-B): Commit snapshots the
+                \* variable's clock BEFORE the re-stamp and Abort restores that snapshot, so an aborted attempt
+                \* takes the variable's clock back below the clock logged for its last committed writer.
+                \* Used only as a vacuity guard (MCVarsRollback.cfg must be rejected on Causal) and as a
+                \* generator of counterexample programs (GenBadRollback.cfg).
 
 Max(a, b) == IF a >= b THEN a ELSE b
 Get(clk, k) == IF k \in DOMAIN clk THEN clk[k] ELSE 0
@@ -33,8 +38,15 @@ Put(f, k, x) == [j \in DOMAIN f \cup {k} |-> IF j = k THEN x ELSE f[j]]
 (*      msg   : token -> clock travelling with the message whose last token it is,           *)
 (*      dirty : set of clock cells touched by the attempt in flight,                         *)
 (*      out   : set of [tok, kind, clk] written to a channel/mailbox by the attempt in flight,*)
-(*      inp   : set of [tok, kind] read from a channel/mailbox by the attempt in flight]     *)
-S0 == [sink |-> <<>>, vclk |-> <<>>, msg |-> <<>>, dirty |-> {}, out |-> {}, inp |-> {}]
+(*      inp   : set of [tok, kind] read from a channel/mailbox by the attempt in flight,     *)
+(*      old   : clock cell -> snapshot restored by Abort; ONLY used by Fix = "vars-rollback"  *)
+(*              (stays empty otherwise: the runtime keeps no second clock per variable)]      *)
+(* What the runtime does with a variable's clock (LocalArchetypeResource.clock):              *)
+(*   it only ever GROWS. Reads and writes merge (Var); a commit merges the committing clock   *)
+(*   (Fix = "vars"); an ABORTED attempt rolls back the VALUE but leaves the CLOCK as it is -- *)
+(*   in particular the clock never goes back below the clock logged for the last commit that  *)
+(*   touched the variable (MCVClock!VarClocksMonotone, checked as a step property).           *)
+S0 == [sink |-> <<>>, vclk |-> <<>>, msg |-> <<>>, dirty |-> {}, out |-> {}, inp |-> {}, old |-> <<>>]
 
 Begin(S, c) == [S EXCEPT !.sink = Put(@, c, Inc(At(S.sink, c), c)), !.dirty = {}, !.out = {}, !.inp = {}]
 
@@ -53,14 +65,25 @@ End(S, c, aborted) ==
     LET fin == At(S.sink, c) IN
     IF aborted
     THEN \* sends are dropped; a value read from a TCP mailbox goes back merged with the reader's clock
-         LET back == {m.tok : m \in {x \in S.inp : x.kind = "tcp"}} IN
+         LET back == {m.tok : m \in {x \in S.inp : x.kind = "tcp"}}
+             \* the clocks of the variables touched by the aborted attempt stay as they are (they may keep
+             \* what the aborted reader/writer merged into them: larger is safe); only the seeded variant
+             \* restores the snapshot taken by the last commit
+             vclkA == IF Fix = "vars-rollback"
+                      THEN [v \in DOMAIN S.vclk |-> IF v \in S.dirty THEN At(S.old, v) ELSE S.vclk[v]]
+                      ELSE S.vclk
+         IN
          [S EXCEPT !.msg = [t \in DOMAIN S.msg |-> IF t \in back THEN Merge(S.msg[t], fin) ELSE S.msg[t]],
-                   !.dirty = {}, !.out = {}, !.inp = {}]
+                   !.vclk = vclkA, !.dirty = {}, !.out = {}, !.inp = {}]
     ELSE LET sent == {m.tok : m \in S.out}
              clkOf(t) == LET m == CHOOSE x \in S.out : x.tok = t IN IF m.kind = "chan" THEN fin ELSE m.clk
              msg2 == [t \in DOMAIN S.msg \cup sent |-> IF t \in sent THEN clkOf(t) ELSE S.msg[t]]
-             vclk2 == IF Fix = "vars"
+             vclk2 == IF Fix \in {"vars", "vars-rollback"}
                       THEN [v \in DOMAIN S.vclk |-> IF v \in S.dirty THEN Merge(S.vclk[v], fin) ELSE S.vclk[v]]
                       ELSE S.vclk
-         IN [S EXCEPT !.msg = msg2, !.vclk = vclk2, !.dirty = {}, !.out = {}, !.inp = {}]
+             \* seeded variant: the snapshot is the clock BEFORE the re-stamp (the write-time stamp)
+             old2 == IF Fix = "vars-rollback"
+                     THEN [v \in DOMAIN S.old \cup S.dirty |-> IF v \in S.dirty THEN S.vclk[v] ELSE S.old[v]]
+                     ELSE S.old
+         IN [S EXCEPT !.msg = msg2, !.vclk = vclk2, !.old = old2, !.dirty = {}, !.out = {}, !.inp = {}]
 =============================================================================
